@@ -532,7 +532,7 @@ Definition ids_consistent_text (t : str) : string :=
 
 Definition check_builder (R : rules) (core pd : schema) (version : list N) (spallation : list str) (b : bcase) : string :=
   let c := build core pd version spallation b in
-  match check_case R core c with
-  | "" => match bc_out b with OText t => ids_consistent_text t | _ => "" end
+  match (match bc_out b with OText t => ids_consistent_text t | _ => "" end) with
+  | "" => check_case R core c
   | e => e
   end.
